@@ -94,7 +94,18 @@ def reverted(prop, commit, text, repo_root):
                             "revert", "--no-commit", commit], cwd=tmp,
                            capture_output=True, text=True)
         if r.returncode != 0:
-            return ("revert", commit, None, [], "does not revert cleanly")
+            # later repairs touched the same lines: hand-made undo patch
+            manual = os.path.join(VERIF, "reverts", commit[:7] + ".diff")
+            if not os.path.exists(manual):
+                return ("revert", commit, None, [], "does not revert cleanly")
+            subprocess.run(["git", "reset", "-q", "--hard"], cwd=tmp,
+                           capture_output=True)
+            q = subprocess.run(["patch", "-p1", "-s",
+                                "--no-backup-if-mismatch", "-i", manual],
+                               cwd=tmp, capture_output=True, text=True)
+            if q.returncode != 0:
+                return ("revert", commit, None, [],
+                        "the undo patch does not apply")
         rc, keys, first = _run_check(prop, tmp, os.path.join(tmp, ".ev"))
         return ("revert", commit, rc, keys, first)
     finally:
